@@ -1,6 +1,7 @@
 import AioModel.Wire
 import AioModel.C18
 import AioModel.C18Ws
+import AioModel.C18Timer
 /-! Driver commands of property C18.
 `run k=v … @t:ev;ev @t:ev …` → one line of canonical observables (see harness/c18.py). -/
 namespace Aio.Driver.C18
@@ -22,6 +23,7 @@ def parseKV (cfg : Cfg × Bool) (tok : String) : Option (Cfg × Bool) :=
   | ["think", v] => v.toNat?.map fun x => ({ cfg.1 with think := x }, cfg.2)
   | ["buf", v] => v.toNat?.map fun x => ({ cfg.1 with bufsize := x }, cfg.2)
   | ["https", v] => some ({ cfg.1 with https := parseBool v }, cfg.2)
+  | ["c0", v] => v.toNat?.map fun x => ({ cfg.1 with c0 := x }, cfg.2)
   | ["cd", v] => some ({ cfg.1 with closeDelim := parseBool v }, cfg.2)
   | ["co", v] => some (cfg.1, parseBool v)
   | _ => none
@@ -74,7 +76,8 @@ def render (cfg : Cfg) (s : St) : String :=
   s!"r={r} hdr={hdr} c={showC s.cpc} acq={if s.slot = .none then 0 else 1} wait={s.poolQ.length} " ++
   s!"pooled={if s.pooled && s.tr = .open then 1 else 0} open={if s.tr = .open then 1 else 0} live={live} " ++
   s!"dnsw={(if s.dnsWaitR then 1 else 0) + (if s.dnsWaitC then 1 else 0)} " ++
-  s!"lookups={match s.lookup with | .none => 0 | _ => 1} dnscalls={s.dnsCalls} follow={follow}"
+  s!"lookups={match s.lookup with | .none => 0 | _ => 1} dnscalls={s.dnsCalls} follow={follow} " ++
+  s!"cnl={if s.pc.isDone then toString s.cancelling else "-"}"
 
 def handle : List String → String
   | "run" :: rest =>
@@ -82,7 +85,7 @@ def handle : List String → String
     let ins := rest.filter (fun t => t.startsWith "@")
     match kvs.foldlM parseKV (({} : Cfg), false), ins.mapM parseInstant with
     | some (cfg, co), some tl =>
-      let s := observe cfg (run cfg (init co) tl)
+      let s := observe cfg (run cfg (init co cfg.c0) tl)
       render cfg s
     | _, _ => "bad-op"
   | ["ws", kind, a1, a2, recv, tc, peer, cancel] =>
@@ -102,6 +105,15 @@ def handle : List String → String
         | .pending => "pending@-1 code=-"
       s!"recv={showOptNat w.recv} close={showOptNat w.close} r={o}"
     | _, _, _, _, _ => "bad-op"
+  | ["tc", c, depth, ops] =>
+    -- TimerContext machine: ops = string over {F (timer fires), X (external cancel)}, "-" = none
+    match c.toNat?, depth.toNat? with
+    | some c, some depth =>
+      let os := (if ops == "-" then [] else ops.toList).map (fun ch => if ch == 'F' then TOp.fire else TOp.ext)
+      let r := tcRun c depth os
+      let o := match r.1 with | .result => "result" | .timeout => "E_TIMEOUT" | .cancelled => "E_CANCELLED"
+      s!"{o} cnl={r.2}"
+    | _, _ => "bad-op"
   | ["ceil", kind, now, d] =>
     match now.toNat?, d.toNat? with
     | some now, some d =>
